@@ -181,7 +181,10 @@ void ref_lex_string(const unsigned char * s, size_t n, ref_tok_t * r) {
      * quote that is not doubled, i.e. the automaton must be in its accepting state when it stops */
     if (tag && m > 0 && m == stop) { set_accept(r, tag - 1, 0, m, m); return; }
     set_reject(r);
-    if (tag && m > 0) r->alt_adv = m; /* "..."" + no terminator: also readable as complete string + stray quote */
+    /* an opening quote whose closing quote has not arrived when the input ends (this includes "..."" whose last quote may
+     * still be the first half of an inserted quote) is "incomplete", exactly like a definite-length block cut by the end of
+     * input: type UNKNOWN, length 0, cursor moved to the end, so that a message terminator inside the string is not acted upon */
+    if (n > 0 && (s[0] == '"' || s[0] == '\'') && stop == (long) n) { r->verdict = REF_INCOMPLETE; r->adv = (long) n; r->ret = 0; }
 }
 
 /* block     '#' [1-9] d{n} byte{len}; a proper prefix of a block that ends with the input is "incomplete" */
